@@ -913,6 +913,68 @@ def rule_no_shared_state(ctx, rep: Report, rid="R3", packages=("gtwrap/", "scrip
                                                     [f"@{unparse(d)}@{d.lineno}" for d in decos]),
                 f"{mi.rel}:{(globs + decos)[0].lineno if globs or decos else 0}", nontrivial=bool(globs or decos))
     rep.units["shared_state_instances"] = n
+    # default parameter values are created once, when the `def` is executed: a list / dict default that the function grows (or
+    # hands out) is process-wide state in disguise
+    for label, src, want in (("positive", "def f(x, acc=[]):\n    acc.append(x)\n    return acc\n", True),
+                             ("negative", "def f(x, acc=None, names=()):\n    acc = [] if acc is None else acc\n    acc.append(x)\n    return acc\n", False)):
+        t_ = ast.parse(src)
+        for p_ in ast.walk(t_):
+            for c_ in ast.iter_child_nodes(p_):
+                c_._parent = p_
+        if bool(_mutable_default_sites(t_.body[0])) != want:
+            raise AnalysisError(f"{rep.prop}/{rid}: built-in {label} example for mutable defaults is not decided as expected")
+    nfun = ndef = 0
+    for mi in sorted(prog.modules.values(), key=lambda m: m.rel):
+        if not mi.rel.startswith(packages):
+            continue
+        for fn in [x for x in ast.walk(mi.tree) if isinstance(x, (ast.FunctionDef, ast.AsyncFunctionDef))]:
+            nfun += 1
+            for pname, dflt, sites in _mutable_default_sites(fn, every=True):
+                ndef += 1
+                rep.add(rid, f"shared-state:{mi.rel}:{fn.name}({pname}={unparse(dflt)[:12]}):a mutable default value is never modified or handed out", not sites,
+                        f"the default of `{pname}` is one object for the life of the process; {sites[:2]}: whatever one call leaves in it is seen by every "
+                        f"later call that relies on the default (the output for a file then contains what earlier wrap calls produced)",
+                        f"{mi.rel}:{fn.lineno}", nontrivial=bool(sites))
+    rep.units["functions_scanned_for_mutable_defaults"] = nfun
+    rep.units["mutable_default_values"] = ndef
+
+
+def _mutable_default_sites(fn, every: bool = False):
+    """[(parameter, default expression, [where the default object is modified in place, returned or stored])] for parameters of fn whose
+    default is a mutable container; with every=False only those that have such a site."""
+    a = fn.args
+    pos = a.posonlyargs + a.args
+    pairs = list(zip([x.arg for x in pos[len(pos) - len(a.defaults):]], a.defaults)) + \
+        [(k.arg, d) for k, d in zip(a.kwonlyargs, a.kw_defaults) if d is not None]
+    out = []
+    for pname, d in pairs:
+        if not _mutable_literal(d):
+            continue
+        sites = []
+        rebound_first = False
+        for st in fn.body:
+            # `p = [] if p is None else p`-style rebinding before any use does not apply to a mutable default; a plain `p = list(p)` does
+            if isinstance(st, ast.Assign) and len(st.targets) == 1 and isinstance(st.targets[0], ast.Name) and st.targets[0].id == pname \
+                    and isinstance(st.value, ast.Call) and unparse(st.value.func) in ("list", "dict", "set", "copy.copy", "copy.deepcopy", "deepcopy") :
+                rebound_first = True
+            break
+        if not rebound_first:
+            for x in walk_no_nested(fn):
+                if isinstance(x, ast.Name) and x.id == pname and isinstance(x.ctx, ast.Load):
+                    p = parent(x)
+                    if isinstance(p, ast.Attribute) and p.attr in MUTATORS and isinstance(parent(p), ast.Call):
+                        sites.append(f"line {x.lineno}: .{p.attr}()")
+                    elif isinstance(p, ast.Subscript) and isinstance(p.ctx, (ast.Store, ast.Del)) and p.value is x:
+                        sites.append(f"line {x.lineno}: item store")
+                    elif isinstance(p, ast.Return) or (isinstance(p, ast.Tuple) and isinstance(parent(p), ast.Return)):
+                        sites.append(f"line {x.lineno}: returned")
+                    elif isinstance(p, ast.Assign) and p.value is x and any(isinstance(t, ast.Attribute) for t in p.targets):
+                        sites.append(f"line {x.lineno}: stored in {unparse(p.targets[0])}")
+                elif isinstance(x, ast.AugAssign) and isinstance(x.target, ast.Name) and x.target.id == pname:
+                    sites.append(f"line {x.lineno}: augmented assignment")
+        if sites or every:
+            out.append((pname, d, sites))
+    return out
 
 
 # ------------------------------------------------------------------------------------------
